@@ -517,6 +517,44 @@ def c09_7(ctx):
     return out
 
 
+def c09_8(ctx):
+    """MEMO: an address / encoding computed for one network (or payload) is not remembered and handed out for another"""
+    from sa.memo import memo_obligation
+    return memo_obligation(ctx, ["script", "bech32", "helper"], "an address computed for one network would be returned for another")
+
+
+def c09_9(ctx):
+    """encode_bech32_checksum can emit every witness version 0..16: the interval analysis of the version symbol that heads
+    the data part must contain [0, 16] at the exit (a range check or early exit that loses one of them breaks the round trip)"""
+    from sa.ranges import Ranges
+    spec = "bech32:encode_bech32_checksum"
+    mod, fn = rl.get(ctx, spec)
+    cfg = cfg_of(fn)
+    var = None
+    for n in cfg.nodes:
+        if n.ast is None or n.kind not in ("stmt", "return"):
+            continue
+        for x in ast.walk(n.ast):
+            if isinstance(x, ast.BinOp) and isinstance(x.op, ast.Add) and isinstance(x.left, ast.List) and len(x.left.elts) == 1 and isinstance(x.left.elts[0], ast.Name):
+                var = x.left.elts[0].id
+    if var is None:
+        raise AnalysisError("encode_bech32_checksum: the version symbol heading the data part (`[version] + ...`) was not found")
+    ra = Ranges(ctx.repo, mod, fn, {var: ISet.top()})
+    rets = [n for n in cfg.returns()]
+    if not rets:
+        raise AnalysisError("encode_bech32_checksum has no exit")
+    acc = ra.union_at([n.id for n in rets], var)
+    need = ISet.range(0, 16)
+    if need.issubset(acc):
+        return [ctx.ok(spec, "version symbol `%s` can take every value 0..16 at the exit (possible values %s)" % (var, acc.describe({})), fn, mod, key="enc-versions")]
+    if ra.uninterpreted:
+        return [ctx.err(spec, "cannot decide the version range: %s" % ra.uninterpreted[0][1], fn, mod)]
+    lost = need.minus(acc)
+    w = lost.witness((16, 1, 0))
+    return [ctx.bad(spec, "witness version %s can never be encoded: the version symbol `%s` only takes the values %s at the exit, so a v%s scriptPubKey has no address" % (
+        w, var, acc.describe({}), w), fn, mod, key="enc-versions", detail={"witness_value": str(w)})]
+
+
 OBLIGATIONS = [
     ("C09.1", "GUARD", c09_1),
     ("C09.2", "GUARD+RANGE", c09_2),
@@ -525,5 +563,7 @@ OBLIGATIONS = [
     ("C09.5", "TABLE derived", c09_5),
     ("C09.6", "SIBLING", c09_6),
     ("C09.7", "BITS", c09_7),
+    ("C09.8", "MEMO", c09_8),
+    ("C09.9", "RANGE coverage", c09_9),
 ]
 FLOORS = {"C09.1": 4, "C09.2": 2, "C09.3": 4, "C09.4": 6, "C09.5": 12, "C09.6": 18, "C09.7": 3}
